@@ -2,7 +2,14 @@
 // ("v1") installed along behaviours of spec/Carbons.tla (property C11).
 //
 // Behaviour: {"gen":"v1|v2","jidcfg":"plain|nores|mixed",
-//             "steps":[{"a":"Recv","c":<sender class>,"w":<wrapper>,"i":<inner kind>},...]}
+//             "steps":[{"a":"Recv","c":<sender class>,"w":<wrapper>,"i":<inner kind>} |
+//                      {"a":"Reconfigure","j":"plain|nores|mixed","how":"setJid|setUserDomain|assign|copySetJid"},...]}
+// Reconfigure: the application changes the account of the *same* client object (as it would before
+// reconnecting with another account): configuration().setJid(), setUser()+setDomain()+setResource(), assigning
+// a freshly built configuration object, or copying the configuration, setJid() on the copy and assigning it
+// back.  Sender classes of later steps are relative to the new JID; the class PreviousOwnBare is the bare JID
+// configured before the switch.  The harness never calls jidBare() itself: the configured identity it uses as
+// ground truth is user() + "@" + domain(), so only the library's own reads can warm a cache.
 // Every step is concretised into several stanzas (one per concrete spelling of the sender class:
 // fixed spellings plus seeded random ones); each is injected through the real receive path
 // (QXmppOutgoingClient::handlePacketReceived) and what the application is shown is recorded from
@@ -136,7 +143,23 @@ struct Env {
     std::unique_ptr<TestClient> client;
     QVector<Shown> shown;
     QString B, R, domain, local;
+    QString prevB;  // bare JID configured before the last Reconfigure
+    void readIdentity()
+    {
+        auto &cfg = client->configuration();
+        local = cfg.user();
+        domain = cfg.domain();
+        B = local.isEmpty() ? domain : local + "@" + domain;
+        R = cfg.resource();
+    }
 };
+
+QString jidOfCfg(const QString &jidcfg)
+{
+    return jidcfg == "plain" ? "me@example.org/dev1"
+        : jidcfg == "nores"  ? "me@example.org"
+                             : "Me.Name@Example.ORG/Dev One";
+}
 
 QString swapCase(const QString &s)
 {
@@ -207,6 +230,12 @@ QStringList spellings(const QString &cls, const Env &e, Rnd &r, int nRandom)
         for (int i = 0; i < nRandom; i++) {
             l << r.word() + "@" + r.word() + ".example/" + B;
         }
+    } else if (cls == "PreviousOwnBare") {
+        if (e.prevB.isEmpty() || e.prevB == B) {
+            fprintf(stderr, "carbons: PreviousOwnBare without a previous account\n");
+            exit(2);
+        }
+        l << e.prevB;
     } else if (cls == "Homoglyph") {
         // Latin e -> Cyrillic ie, Latin o -> Greek omicron, Latin a -> Cyrillic a
         QString h = B;
@@ -285,15 +314,9 @@ void runBehaviour(Ctx &ctx, const QString &caseId, const QJsonObject &b, int nRa
     }
 
     Env e;
-    QString jid = jidcfg == "plain" ? "me@example.org/dev1"
-        : jidcfg == "nores"         ? "me@example.org"
-                                    : "Me.Name@Example.ORG/Dev One";
-    e.client = std::make_unique<TestClient>(TestClient::NoExtensions, jid);
+    e.client = std::make_unique<TestClient>(TestClient::NoExtensions, jidOfCfg(jidcfg));
     auto &c = *e.client;
-    e.B = c.configuration().jidBare();
-    e.R = c.configuration().resource();
-    e.domain = c.configuration().domain();
-    e.local = c.configuration().user();
+    e.readIdentity();
     c.fakeSession();
 
     if (gen == "v2") {
@@ -317,7 +340,41 @@ void runBehaviour(Ctx &ctx, const QString &caseId, const QJsonObject &b, int nRa
     int n = 0;
     for (const auto &sv : steps) {
         const auto s = sv.toObject();
+        if (s["a"].toString() == "Reconfigure") {
+            const auto j = s["j"].toString(), how = s["how"].toString();
+            const QString full = jidOfCfg(j);
+            const QString oldB = e.B;
+            auto &cfg = c.configuration();
+            if (how == "setJid") {
+                cfg.setJid(full);
+            } else if (how == "setUserDomain") {
+                cfg.setUser(QXmppUtils::jidToUser(full));
+                cfg.setDomain(QXmppUtils::jidToDomain(full));
+                if (!QXmppUtils::jidToResource(full).isEmpty()) {
+                    cfg.setResource(QXmppUtils::jidToResource(full));
+                }
+            } else if (how == "assign") {
+                QXmppConfiguration fresh;
+                fresh.setJid(full);
+                fresh.setPassword(QStringLiteral("pw"));
+                cfg = fresh;
+            } else if (how == "copySetJid") {
+                QXmppConfiguration copy = cfg;
+                copy.setJid(full);
+                cfg = copy;
+            } else {
+                fprintf(stderr, "carbons: unknown way to reconfigure %s\n", qPrintable(how));
+                exit(2);
+            }
+            e.readIdentity();
+            e.prevB = oldB;  // as in the model: the class PreviousOwnBare exists iff this differs from the new one
+            ctx.emit_({ { "e", "Reconfigure" }, { "j", j }, { "how", how }, { "own", e.B }, { "prev", oldB } });
+            continue;
+        }
         const auto cls = s["c"].toString(), w = s["w"].toString(), ik = s["i"].toString();
+        if (cls == "PreviousOwnBare" && (e.prevB.isEmpty() || e.prevB == e.B)) {
+            break;  // (cannot happen for behaviours of the model: the class exists only after a switch of account)
+        }
         auto sp = spellings(cls, e, r, nRandom);
         QStringList use;
         if (allFixed || sp.size() <= 2) {
